@@ -3,4 +3,1046 @@ import SradModel.Proofs.Reseq
 
 namespace Srad.Host
 
+/-! ### frame facts for the small handlers -/
+
+theorem cancelTimer_fst (s : St) : (cancelTimer s).1 = { s with timer := .none } := by
+  obtain ⟨life, bts, sts, bd, lr, rs, dv, tm⟩ := s
+  cases tm <;> rfl
+
+theorem cancelTimer_eff (s : St) : ∀ e ∈ (cancelTimer s).2, e = Eff.timerCancel := by
+  unfold cancelTimer
+  split <;> simp
+
+theorem startTimer_fst (c : Cfg) (s : St) (now : Nat) :
+    (startTimer c s now).1 = { s with timer := (startTimer c s now).1.timer } := by
+  unfold startTimer
+  split <;> rfl
+
+theorem startTimer_eff (c : Cfg) (s : St) (now : Nat) :
+    ∀ e ∈ (startTimer c s now).2, e = Eff.timerStart := by
+  unfold startTimer
+  split <;> simp
+
+/-- effects that carry a message to a store (the ones `C05_effects_bounded` counts) -/
+def isMsgEff : Eff → Bool
+  | .nodeData _ | .devData _ _ | .devBirth _ _ _ => true
+  | _ => false
+
+theorem setStale_cases (s : St) (t : Nat) :
+    ((setStale s t).1 = s ∧ (setStale s t).2 = []) ∨
+    ((setStale s t).1.life = .stale ∧ s.life = .birthed) := by
+  unfold setStale
+  split
+  · exact Or.inl ⟨rfl, rfl⟩
+  · split
+    · exact Or.inl ⟨rfl, rfl⟩
+    · refine Or.inr ⟨rfl, ?_⟩
+      cases h : s.life <;> simp_all
+
+theorem setStale_eff (s : St) (t : Nat) :
+    ∀ e ∈ (setStale s t).2, isMsgEff e = false ∧ e ≠ Eff.ncmd := by
+  unfold setStale
+  split
+  · simp
+  · split
+    · simp
+    · intro e he
+      simp only [List.mem_append, List.mem_map, List.mem_singleton] at he
+      rcases he with (he | he) | ⟨d, _, he⟩
+      · rw [cancelTimer_eff _ e he]; simp [isMsgEff]
+      · subst he; simp [isMsgEff]
+      · subst he; simp [isMsgEff]
+
+theorem issueRebirth_cases (c : Cfg) (s : St) (r : Reason) (now wall : Nat) :
+    (issueRebirth c s r now wall).1 = s ∨
+    (issueRebirth c s r now wall).1.life = .stale ∨
+    (issueRebirth c s r now wall).1 = { s with lastRebirth := wall } := by
+  unfold issueRebirth
+  split
+  · exact Or.inl rfl
+  · split
+    · exact Or.inl rfl
+    · rcases setStale_cases { s with lastRebirth := wall } now with ⟨h, _⟩ | ⟨h, _⟩
+      · exact Or.inr (Or.inr h)
+      · exact Or.inr (Or.inl h)
+
+theorem issueRebirth_eff (c : Cfg) (s : St) (r : Reason) (now wall : Nat) :
+    ∀ e ∈ (issueRebirth c s r now wall).2, isMsgEff e = false := by
+  unfold issueRebirth
+  split
+  · simp
+  · split
+    · simp
+    · intro e he
+      simp only [List.mem_append, List.mem_singleton] at he
+      rcases he with he | he
+      · exact (setStale_eff _ _ e he).1
+      · subst he; rfl
+
+/-- if the node is still birthed after `issueRebirth`, the resequencer was not touched -/
+theorem issueRebirth_reseq (c : Cfg) (s : St) (r : Reason) (now wall : Nat)
+    (h : (issueRebirth c s r now wall).1.life = .birthed) :
+    (issueRebirth c s r now wall).1.reseq = s.reseq := by
+  rcases issueRebirth_cases c s r now wall with h1 | h1 | h1
+  · rw [h1]
+  · rw [h1] at h; cases h
+  · rw [h1]
+
+theorem setStale_reseq (s : St) (t : Nat) (h : (setStale s t).1.life = .birthed) :
+    (setStale s t).1.reseq = s.reseq := by
+  rcases setStale_cases s t with ⟨h1, _⟩ | ⟨h1, _⟩
+  · rw [h1]
+  · rw [h1] at h; cases h
+
+/-! ### `apply` only reads and writes `devices` -/
+
+theorem apply_fst (s : St) (m : RMsg) :
+    (apply s m).1 = { s with devices := (apply s m).1.devices } := by
+  cases m with
+  | ndata id ans => rfl
+  | dbirth d id ans =>
+    simp only [apply]
+    split <;> rfl
+  | ddeath d id =>
+    simp only [apply]
+    split <;> rfl
+  | ddata d id ans =>
+    simp only [apply]
+    split <;> rfl
+
+theorem apply_reseq (s : St) (m : RMsg) : (apply s m).1.reseq = s.reseq := by
+  rw [apply_fst]
+
+theorem apply_congr (s s' : St) (m : RMsg) (h : s.devices = s'.devices) :
+    (apply s m).1.devices = (apply s' m).1.devices ∧ (apply s m).2 = (apply s' m).2 := by
+  cases m with
+  | ndata id ans => exact ⟨h, rfl⟩
+  | dbirth d id ans =>
+    simp only [apply, h]
+    split <;> exact ⟨rfl, rfl⟩
+  | ddeath d id =>
+    simp only [apply, h]
+    split <;> first | exact ⟨rfl, rfl⟩ | exact ⟨h, rfl⟩
+  | ddata d id ans =>
+    simp only [apply, h]
+    split <;> first | exact ⟨rfl, rfl⟩ | exact ⟨h, rfl⟩
+
+theorem apply_eff (s : St) (m : RMsg) :
+    ∀ e ∈ (apply s m).2.1, e.observable = true ∧ e ≠ Eff.ncmd := by
+  cases m with
+  | ndata id ans => simp [apply, Eff.observable]
+  | dbirth d id ans =>
+    simp only [apply]
+    split <;> split <;> simp [Eff.observable]
+  | ddeath d id =>
+    simp only [apply]
+    split <;> simp [Eff.observable]
+  | ddata d id ans =>
+    simp only [apply]
+    split <;> simp [Eff.observable]
+
+theorem apply_cnt (s : St) (m : RMsg) : ((apply s m).2.1.filter isMsgEff).length ≤ 1 := by
+  cases m with
+  | ndata id ans => simp [apply, List.filter, isMsgEff]
+  | dbirth d id ans =>
+    simp only [apply]
+    split <;> split <;> simp [List.filter, isMsgEff]
+  | ddeath d id =>
+    simp only [apply]
+    split <;> simp [List.filter, isMsgEff]
+  | ddata d id ans =>
+    simp only [apply]
+    split <;> simp [List.filter, isMsgEff]
+
+/-! ### one iteration of the host's drain loop / of its ghost `drainSeqs` -/
+
+theorem drainBuf_msg_none (c : Cfg) (now fuel : Nat) (rel : Bool) (s s1 : St) (acc e1 : List Eff)
+    (r' : Reseq.St (Nat × RMsg)) (m : Nat × RMsg)
+    (hd : Reseq.drain s.reseq = (r', .msg m))
+    (ha : apply { s with reseq := r' } m.2 = (s1, e1, none)) :
+    drainBuf c now (fuel + 1) rel s acc = drainBuf c now fuel true s1 (acc ++ e1) := by
+  simp only [drainBuf, hd, ha]
+
+theorem drainBuf_msg_some (c : Cfg) (now fuel : Nat) (rel : Bool) (s s1 : St) (acc e1 : List Eff)
+    (r' : Reseq.St (Nat × RMsg)) (m : Nat × RMsg) (r : Reason)
+    (hd : Reseq.drain s.reseq = (r', .msg m))
+    (ha : apply { s with reseq := r' } m.2 = (s1, e1, some r)) :
+    drainBuf c now (fuel + 1) rel s acc = (s1, acc ++ e1, some r) := by
+  simp only [drainBuf, hd, ha]
+
+/-- the loop stops: the resequencer is left as `drain` left it, only timer effects are added,
+nothing but the timer changes -/
+theorem drainBuf_stop (c : Cfg) (now fuel : Nat) (rel : Bool) (s : St) (acc : List Eff)
+    (r' : Reseq.St (Nat × RMsg)) (r : Reseq.DrainRes (Nat × RMsg))
+    (hd : Reseq.drain s.reseq = (r', r)) (hr : ∀ m, r ≠ .msg m) :
+    ∃ tm te, drainBuf c now (fuel + 1) rel s acc =
+        ({ s with reseq := r', timer := tm }, acc ++ te, none) ∧
+      ∀ e ∈ te, e = Eff.timerCancel ∨ e = Eff.timerStart := by
+  cases r with
+  | msg m => exact absurd rfl (hr m)
+  | empty =>
+    refine ⟨.none, (cancelTimer { s with reseq := r' }).2, ?_, ?_⟩
+    · simp only [drainBuf, hd]
+      rw [cancelTimer_fst]
+    · intro e he; exact Or.inl (cancelTimer_eff _ e he)
+  | missing =>
+    cases rel with
+    | false =>
+      refine ⟨s.timer, [], ?_, by simp⟩
+      simp [drainBuf, hd]
+    | true =>
+      refine ⟨(startTimer c (cancelTimer { s with reseq := r' }).1 now).1.timer,
+        (cancelTimer { s with reseq := r' }).2 ++
+          (startTimer c (cancelTimer { s with reseq := r' }).1 now).2, ?_, ?_⟩
+      · simp only [drainBuf, hd, if_true, List.append_assoc]
+        rw [startTimer_fst, cancelTimer_fst]
+      · intro e he
+        rcases List.mem_append.mp he with he | he
+        · exact Or.inl (cancelTimer_eff _ e he)
+        · exact Or.inr (startTimer_eff _ _ _ e he)
+  | panic =>
+    refine ⟨s.timer, [], ?_, by simp⟩
+    simp [drainBuf, hd]
+
+theorem drainSeqs_msg_none (fuel : Nat) (r r' : Reseq.St (Nat × RMsg)) (s s1 : St) (e1 : List Eff)
+    (accN : List Nat) (m : Nat × RMsg)
+    (hd : Reseq.drain r = (r', .msg m))
+    (ha : apply { s with reseq := r' } m.2 = (s1, e1, none)) :
+    drainSeqs (fuel + 1) r s accN = drainSeqs fuel r' s1 (accN ++ [m.1]) := by
+  simp only [drainSeqs, hd, ha]
+
+theorem drainSeqs_msg_some (fuel : Nat) (r r' : Reseq.St (Nat × RMsg)) (s s1 : St) (e1 : List Eff)
+    (accN : List Nat) (m : Nat × RMsg) (rs : Reason)
+    (hd : Reseq.drain r = (r', .msg m))
+    (ha : apply { s with reseq := r' } m.2 = (s1, e1, some rs)) :
+    drainSeqs (fuel + 1) r s accN = accN ++ [m.1] := by
+  simp only [drainSeqs, hd, ha]
+
+theorem drainSeqs_stop (fuel : Nat) (r r' : Reseq.St (Nat × RMsg)) (s : St)
+    (accN : List Nat) (dr : Reseq.DrainRes (Nat × RMsg))
+    (hd : Reseq.drain r = (r', dr)) (hr : ∀ m, dr ≠ .msg m) :
+    drainSeqs (fuel + 1) r s accN = accN := by
+  cases dr with
+  | msg m => exact absurd rfl (hr m)
+  | empty => simp only [drainSeqs, hd]
+  | missing => simp only [drainSeqs, hd]
+  | panic => simp only [drainSeqs, hd]
+
+/-- a message released by `drain` carries the expected number, which then advances by one -/
+theorem drain_msg_next (r r' : Reseq.St (Nat × RMsg)) (m : Nat × RMsg) (h : Reseq.Inv r)
+    (hd : Reseq.drain r = (r', .msg m)) :
+    m.1 = r.next ∧ r'.next = (r.next + 1) % 256 ∧ Reseq.Inv r' := by
+  have h1 := (Reseq.step_release_in_order r .drain h trivial).1 m (by simp [Reseq.stepOp, hd])
+  have h2 := Reseq.drain_inv r h
+  rw [hd] at h2
+  simp only [Reseq.stepOp, hd] at h1
+  exact ⟨h1.1, h1.2, h2⟩
+
+theorem drain_stop_same (r r' : Reseq.St (Nat × RMsg)) (dr : Reseq.DrainRes (Nat × RMsg))
+    (hd : Reseq.drain r = (r', dr)) (hr : ∀ m, dr ≠ .msg m) : r' = r := by
+  rcases Reseq.drain_cases r with ⟨off, m, t, _, _, hd'⟩ | ⟨dr', hd', _⟩
+  · rw [hd'] at hd
+    cases hd
+    exact absurd rfl (hr m)
+  · rw [hd'] at hd
+    cases hd
+    rfl
+
+/-- **lock-step**: `drainBuf` and its ghost follow the same branches -/
+theorem drain_lockstep (c : Cfg) (now n0 : Nat) : ∀ (fuel : Nat) (rel : Bool) (s : St)
+    (acc : List Eff) (accN : List Nat), Reseq.Inv s.reseq →
+    s.reseq.next = (n0 + accN.length) % 256 →
+    (∀ k (hk : k < accN.length), accN[k] = (n0 + k) % 256) →
+    (∀ k (hk : k < (drainSeqs fuel s.reseq s accN).length),
+        (drainSeqs fuel s.reseq s accN)[k] = (n0 + k) % 256) ∧
+    (drainBuf c now fuel rel s acc).1.reseq.next
+        = (n0 + (drainSeqs fuel s.reseq s accN).length) % 256 ∧
+    ((drainBuf c now fuel rel s acc).2.1.filter isMsgEff).length + accN.length
+        ≤ (acc.filter isMsgEff).length + (drainSeqs fuel s.reseq s accN).length := by
+  intro fuel
+  induction fuel with
+  | zero =>
+    intro rel s acc accN _ hn hacc
+    simp only [drainBuf, drainSeqs]
+    exact ⟨hacc, hn, Nat.le_refl _⟩
+  | succ fuel ih =>
+    intro rel s acc accN hinv hn hacc
+    cases hd : Reseq.drain s.reseq with
+    | mk r' dr =>
+    by_cases hmsg : ∃ m, dr = .msg m
+    · obtain ⟨m, rfl⟩ := hmsg
+      obtain ⟨hm1, hr'n, hr'inv⟩ := drain_msg_next _ _ _ hinv hd
+      have hacc' : ∀ k (hk : k < (accN ++ [m.1]).length), (accN ++ [m.1])[k] = (n0 + k) % 256 := by
+        intro k hk
+        by_cases hk' : k < accN.length
+        · rw [List.getElem_append_left hk']; exact hacc k hk'
+        · have hk2 : k = accN.length := by simp at hk; omega
+          subst hk2
+          simp [hm1, hn]
+      cases ha : apply { s with reseq := r' } m.2 with
+      | mk s1 rest =>
+      obtain ⟨e1, ro⟩ := rest
+      have hs1 : s1.reseq = r' := by
+        have := apply_reseq { s with reseq := r' } m.2
+        rw [ha] at this; exact this
+      have hcnt : (e1.filter isMsgEff).length ≤ 1 := by
+        have := apply_cnt { s with reseq := r' } m.2
+        rw [ha] at this; exact this
+      cases ro with
+      | none =>
+        rw [drainBuf_msg_none c now fuel rel s s1 acc e1 r' m hd ha,
+          drainSeqs_msg_none fuel s.reseq r' s s1 e1 accN m hd ha]
+        have := ih true s1 (acc ++ e1) (accN ++ [m.1]) (hs1 ▸ hr'inv)
+          (by rw [hs1, hr'n, hn]; simp; omega) hacc'
+        rw [hs1] at this
+        obtain ⟨h1, h2, h3⟩ := this
+        refine ⟨h1, h2, ?_⟩
+        simp only [List.filter_append, List.length_append, List.length_singleton] at h3
+        omega
+      | some rs =>
+        rw [drainBuf_msg_some c now fuel rel s s1 acc e1 r' m rs hd ha,
+          drainSeqs_msg_some fuel s.reseq r' s s1 e1 accN m rs hd ha]
+        refine ⟨hacc', ?_, ?_⟩
+        · simp only [hs1, hr'n, hn, List.length_append, List.length_singleton]; omega
+        · simp only [List.filter_append, List.length_append, List.length_singleton]; omega
+    · have hr : ∀ m, dr ≠ .msg m := fun m h => hmsg ⟨m, h⟩
+      obtain ⟨tm, te, hdb, hte⟩ := drainBuf_stop c now fuel rel s acc r' dr hd hr
+      rw [hdb, drainSeqs_stop fuel s.reseq r' s accN dr hd hr]
+      have hsame := drain_stop_same _ _ _ hd hr
+      refine ⟨hacc, by simp only [hsame, hn], ?_⟩
+      have : te.filter isMsgEff = [] := by
+        rw [List.filter_eq_nil_iff]
+        intro e he
+        rcases hte e he with h | h <;> subst h <;> simp [isMsgEff]
+      simp only [List.filter_append, this, List.append_nil]
+      omega
+
+/-! ### branch equations for `handleRMsg` and its ghost `appliedSeqs` -/
+
+section Branches
+variable (c : Cfg) (s : St) (seq ts : Nat) (m : RMsg) (now : Nat)
+
+theorem handleRMsg_old (h1 : ts < s.birthTs ∨ ts < s.staleTs) :
+    handleRMsg c s seq ts m now = (s, [], none) := by
+  simp only [handleRMsg, h1, if_true]
+
+theorem appliedSeqs_old (h1 : ts < s.birthTs ∨ ts < s.staleTs) :
+    appliedSeqs c s (.rmsg seq ts m) = [] := by
+  simp only [appliedSeqs, h1, if_true]
+
+theorem handleRMsg_stale (h1 : ¬ (ts < s.birthTs ∨ ts < s.staleTs)) (h2 : s.life ≠ .birthed) :
+    handleRMsg c s seq ts m now = (s, [], some .recordedStateStale) := by
+  simp only [handleRMsg, h1, if_false]
+  rw [if_pos h2]
+
+theorem appliedSeqs_stale (h1 : ¬ (ts < s.birthTs ∨ ts < s.staleTs)) (h2 : s.life ≠ .birthed) :
+    appliedSeqs c s (.rmsg seq ts m) = [] := by
+  simp only [appliedSeqs, h1, if_false]
+  rw [if_pos h2]
+
+theorem handleRMsg_noreseq (h1 : ¬ (ts < s.birthTs ∨ ts < s.staleTs)) (h2 : s.life = .birthed)
+    (h3 : c.resequence = false) : handleRMsg c s seq ts m now = apply s m := by
+  simp [handleRMsg, h1, h2, h3]
+
+theorem appliedSeqs_noreseq (h1 : ¬ (ts < s.birthTs ∨ ts < s.staleTs)) (h2 : s.life = .birthed)
+    (h3 : c.resequence = false) : appliedSeqs c s (.rmsg seq ts m) = [seq] := by
+  simp [appliedSeqs, h1, h2, h3]
+
+theorem handleRMsg_reseq (h1 : ¬ (ts < s.birthTs ∨ ts < s.staleTs)) (h2 : s.life = .birthed)
+    (h3 : c.resequence = true) :
+    handleRMsg c s seq ts m now =
+      match Reseq.process s.reseq seq (seq, m) with
+      | (r', .inserted) =>
+        let s1 := { s with reseq := r' }
+        match s1.timer with
+        | .none => let (s2, e2) := startTimer c s1 now; (s2, e2, none)
+        | _ => (s1, [], none)
+      | (r', .dup) => ({ s with reseq := r' }, [], some .reorderFail)
+      | (r', .next m') =>
+        match apply { s with reseq := r' } m'.2 with
+        | (s1, e1, some r) => (s1, e1, some r)
+        | (s1, e1, none) => drainBuf c now (s1.reseq.buf.length + 1) false s1 e1 := by
+  unfold handleRMsg
+  rw [if_neg h1, if_neg (by simp [h2]), if_neg (by simp [h3])]
+  rfl
+
+theorem appliedSeqs_reseq (h1 : ¬ (ts < s.birthTs ∨ ts < s.staleTs)) (h2 : s.life = .birthed)
+    (h3 : c.resequence = true) :
+    appliedSeqs c s (.rmsg seq ts m) =
+      match Reseq.process s.reseq seq (seq, m) with
+      | (r', .next m') =>
+        match apply { s with reseq := r' } m'.2 with
+        | (_, _, some _) => [m'.1]
+        | (s1, _, none) => drainSeqs (s1.reseq.buf.length + 1) s1.reseq s1 [m'.1]
+      | _ => [] := by
+  unfold appliedSeqs
+  simp only
+  rw [if_neg h1, if_neg (by simp [h2]), if_neg (by simp [h3])]
+  rfl
+
+theorem handleRMsg_inserted (h1 : ¬ (ts < s.birthTs ∨ ts < s.staleTs)) (h2 : s.life = .birthed)
+    (h3 : c.resequence = true) (r' : Reseq.St (Nat × RMsg))
+    (hp : Reseq.process s.reseq seq (seq, m) = (r', .inserted)) :
+    ∃ tm te, handleRMsg c s seq ts m now = ({ s with reseq := r', timer := tm }, te, none) ∧
+      ∀ e ∈ te, e = Eff.timerStart := by
+  rw [handleRMsg_reseq c s seq ts m now h1 h2 h3]
+  simp only [hp]
+  cases htm : s.timer with
+  | none =>
+    refine ⟨(startTimer c { s with reseq := r' } now).1.timer,
+      (startTimer c { s with reseq := r' } now).2, ?_, startTimer_eff _ _ _⟩
+    simp only
+    rw [startTimer_fst]
+    simp [htm]
+  | armed d => exact ⟨.armed d, [], by simp [← htm], by simp⟩
+  | fired => exact ⟨.fired, [], by simp [← htm], by simp⟩
+
+theorem appliedSeqs_inserted (h1 : ¬ (ts < s.birthTs ∨ ts < s.staleTs)) (h2 : s.life = .birthed)
+    (h3 : c.resequence = true) (r' : Reseq.St (Nat × RMsg))
+    (hp : Reseq.process s.reseq seq (seq, m) = (r', .inserted)) :
+    appliedSeqs c s (.rmsg seq ts m) = [] := by
+  rw [appliedSeqs_reseq c s seq ts m h1 h2 h3]
+  simp only [hp]
+
+theorem handleRMsg_dup (h1 : ¬ (ts < s.birthTs ∨ ts < s.staleTs)) (h2 : s.life = .birthed)
+    (h3 : c.resequence = true) (r' : Reseq.St (Nat × RMsg))
+    (hp : Reseq.process s.reseq seq (seq, m) = (r', .dup)) :
+    handleRMsg c s seq ts m now = ({ s with reseq := r' }, [], some .reorderFail) := by
+  rw [handleRMsg_reseq c s seq ts m now h1 h2 h3]
+  simp only [hp]
+
+theorem appliedSeqs_dup (h1 : ¬ (ts < s.birthTs ∨ ts < s.staleTs)) (h2 : s.life = .birthed)
+    (h3 : c.resequence = true) (r' : Reseq.St (Nat × RMsg))
+    (hp : Reseq.process s.reseq seq (seq, m) = (r', .dup)) :
+    appliedSeqs c s (.rmsg seq ts m) = [] := by
+  rw [appliedSeqs_reseq c s seq ts m h1 h2 h3]
+  simp only [hp]
+
+theorem handleRMsg_next_some (h1 : ¬ (ts < s.birthTs ∨ ts < s.staleTs)) (h2 : s.life = .birthed)
+    (h3 : c.resequence = true) (r' : Reseq.St (Nat × RMsg)) (m' : Nat × RMsg)
+    (hp : Reseq.process s.reseq seq (seq, m) = (r', .next m'))
+    (s1 : St) (e1 : List Eff) (r : Reason)
+    (ha : apply { s with reseq := r' } m'.2 = (s1, e1, some r)) :
+    handleRMsg c s seq ts m now = (s1, e1, some r) := by
+  rw [handleRMsg_reseq c s seq ts m now h1 h2 h3]
+  simp only [hp, ha]
+
+theorem appliedSeqs_next_some (h1 : ¬ (ts < s.birthTs ∨ ts < s.staleTs)) (h2 : s.life = .birthed)
+    (h3 : c.resequence = true) (r' : Reseq.St (Nat × RMsg)) (m' : Nat × RMsg)
+    (hp : Reseq.process s.reseq seq (seq, m) = (r', .next m'))
+    (s1 : St) (e1 : List Eff) (r : Reason)
+    (ha : apply { s with reseq := r' } m'.2 = (s1, e1, some r)) :
+    appliedSeqs c s (.rmsg seq ts m) = [m'.1] := by
+  rw [appliedSeqs_reseq c s seq ts m h1 h2 h3]
+  simp only [hp, ha]
+
+theorem handleRMsg_next_none (h1 : ¬ (ts < s.birthTs ∨ ts < s.staleTs)) (h2 : s.life = .birthed)
+    (h3 : c.resequence = true) (r' : Reseq.St (Nat × RMsg)) (m' : Nat × RMsg)
+    (hp : Reseq.process s.reseq seq (seq, m) = (r', .next m'))
+    (s1 : St) (e1 : List Eff)
+    (ha : apply { s with reseq := r' } m'.2 = (s1, e1, none)) :
+    handleRMsg c s seq ts m now = drainBuf c now (s1.reseq.buf.length + 1) false s1 e1 := by
+  rw [handleRMsg_reseq c s seq ts m now h1 h2 h3]
+  simp only [hp, ha]
+
+theorem appliedSeqs_next_none (h1 : ¬ (ts < s.birthTs ∨ ts < s.staleTs)) (h2 : s.life = .birthed)
+    (h3 : c.resequence = true) (r' : Reseq.St (Nat × RMsg)) (m' : Nat × RMsg)
+    (hp : Reseq.process s.reseq seq (seq, m) = (r', .next m'))
+    (s1 : St) (e1 : List Eff)
+    (ha : apply { s with reseq := r' } m'.2 = (s1, e1, none)) :
+    appliedSeqs c s (.rmsg seq ts m) = drainSeqs (s1.reseq.buf.length + 1) s1.reseq s1 [m'.1] := by
+  rw [appliedSeqs_reseq c s seq ts m h1 h2 h3]
+  simp only [hp, ha]
+
+end Branches
+
+/-- what one resequenceable message does to the expected number, the applied numbers and the
+number of store-touching effects -/
+theorem handleRMsg_spec (c : Cfg) (s : St) (seq ts : Nat) (m : RMsg) (now : Nat)
+    (hinv : Reseq.Inv s.reseq) (hseq : seq < 256) :
+    ((handleRMsg c s seq ts m now).2.1.filter isMsgEff).length
+        ≤ (appliedSeqs c s (.rmsg seq ts m)).length ∧
+    (c.resequence = true →
+      (∀ k (hk : k < (appliedSeqs c s (.rmsg seq ts m)).length),
+        (appliedSeqs c s (.rmsg seq ts m))[k] = (s.reseq.next + k) % 256) ∧
+      (handleRMsg c s seq ts m now).1.reseq.next
+        = (s.reseq.next + (appliedSeqs c s (.rmsg seq ts m)).length) % 256) := by
+  have hnext : s.reseq.next % 256 = s.reseq.next := Nat.mod_eq_of_lt hinv.1
+  by_cases h1 : ts < s.birthTs ∨ ts < s.staleTs
+  · rw [handleRMsg_old c s seq ts m now h1, appliedSeqs_old c s seq ts m h1]
+    simp [hnext]
+  by_cases h2 : s.life ≠ .birthed
+  · rw [handleRMsg_stale c s seq ts m now h1 h2, appliedSeqs_stale c s seq ts m h1 h2]
+    simp [hnext]
+  have h2' : s.life = .birthed := by
+    cases h : s.life <;> simp_all
+  cases h3 : c.resequence with
+  | false =>
+    rw [handleRMsg_noreseq c s seq ts m now h1 h2' h3, appliedSeqs_noreseq c s seq ts m h1 h2' h3]
+    exact ⟨apply_cnt s m, fun h => by cases h⟩
+  | true =>
+    rcases Reseq.process_cases s.reseq seq (seq, m) with ⟨hn, hp⟩ | ⟨s', hp, hn, _⟩ | ⟨s', hp, hn, _⟩
+    · have hm0 : seq = (s.reseq.next + 0) % 256 := by rw [Nat.add_zero, hnext, hn]
+      have hsing : ∀ k (hk : k < [seq].length), [seq][k] = (s.reseq.next + k) % 256 := by
+        intro k hk
+        have : k = 0 := by simpa using hk
+        subst this
+        simpa using hm0
+      cases ha : apply { s with reseq := { s.reseq with next := Reseq.wadd s.reseq.next 1 } } m with
+      | mk s1 rest =>
+      obtain ⟨e1, ro⟩ := rest
+      have hs1 : s1.reseq = { s.reseq with next := Reseq.wadd s.reseq.next 1 } := by
+        have := apply_reseq { s with reseq := { s.reseq with next := Reseq.wadd s.reseq.next 1 } } m
+        rw [ha] at this; exact this
+      have hcnt : (e1.filter isMsgEff).length ≤ 1 := by
+        have := apply_cnt { s with reseq := { s.reseq with next := Reseq.wadd s.reseq.next 1 } } m
+        rw [ha] at this; exact this
+      cases ro with
+      | some r =>
+        rw [handleRMsg_next_some c s seq ts m now h1 h2' h3 _ _ hp s1 e1 r ha,
+          appliedSeqs_next_some c s seq ts m h1 h2' h3 _ _ hp s1 e1 r ha]
+        refine ⟨hcnt, fun _ => ⟨hsing, ?_⟩⟩
+        rw [hs1]; rfl
+      | none =>
+        rw [handleRMsg_next_none c s seq ts m now h1 h2' h3 _ _ hp s1 e1 ha,
+          appliedSeqs_next_none c s seq ts m h1 h2' h3 _ _ hp s1 e1 ha]
+        dsimp only
+        have hinv1 : Reseq.Inv s1.reseq := by
+          rw [hs1]
+          have := Reseq.process_inv s.reseq seq m hinv hseq
+          rw [hp] at this; exact this
+        have := drain_lockstep c now s.reseq.next (s1.reseq.buf.length + 1) false s1 e1 [seq]
+          hinv1 (by rw [hs1]; rfl) hsing
+        obtain ⟨h4, h5, h6⟩ := this
+        refine ⟨?_, fun _ => ⟨h4, h5⟩⟩
+        simp only [List.length_singleton] at h6
+        omega
+    · obtain ⟨tm, te, he, hte⟩ := handleRMsg_inserted c s seq ts m now h1 h2' h3 s' hp
+      rw [he, appliedSeqs_inserted c s seq ts m h1 h2' h3 s' hp]
+      refine ⟨?_, fun _ => ⟨by simp, by simp [hn, hnext]⟩⟩
+      have : te.filter isMsgEff = [] := by
+        rw [List.filter_eq_nil_iff]
+        intro e he
+        rw [hte e he]; simp [isMsgEff]
+      simp [this]
+    · rw [handleRMsg_dup c s seq ts m now h1 h2' h3 s' hp,
+        appliedSeqs_dup c s seq ts m h1 h2' h3 s' hp]
+      simp [hn, hnext]
+
+/-! ### `step` -/
+
+theorem step_rmsg_eq (c : Cfg) (s : St) (seq ts : Nat) (m : RMsg) (now wall : Nat) :
+    step c s (.rmsg seq ts m) now wall =
+      match (handleRMsg c s seq ts m now).2.2 with
+      | none => ((handleRMsg c s seq ts m now).1, (handleRMsg c s seq ts m now).2.1)
+      | some r => ((issueRebirth c (handleRMsg c s seq ts m now).1 r now wall).1,
+          (handleRMsg c s seq ts m now).2.1 ++
+            (issueRebirth c (handleRMsg c s seq ts m now).1 r now wall).2) := by
+  simp only [step]
+  generalize handleRMsg c s seq ts m now = x
+  obtain ⟨s1, e1, ro⟩ := x
+  cases ro <;> rfl
+
+theorem step_ndeath_fst (c : Cfg) (s : St) (bd : Nat) (now wall : Nat) :
+    (step c s (.ndeath bd) now wall).1 =
+      if bd ≠ (setStale (cancelTimer s).1 now).1.bdseq then
+        (issueRebirth c (setStale (cancelTimer s).1 now).1 .outOfSyncBdSeq now wall).1
+      else (setStale (cancelTimer s).1 now).1 := by
+  simp only [step]
+  split <;> rfl
+
+/-- a step that is neither an NBIRTH nor a resequenceable message leaves the resequencer alone
+unless the node ends up stale -/
+theorem step_other_reseq (c : Cfg) (s : St) (i : In) (now wall : Nat)
+    (hnb : ∀ ts bd id ans, i ≠ .nbirth ts bd id ans) (hnr : ∀ seq ts m, i ≠ .rmsg seq ts m)
+    (hl : (step c s i now wall).1.life = .birthed) :
+    (step c s i now wall).1.reseq = s.reseq := by
+  cases i with
+  | nbirth ts bd id ans => exact absurd rfl (hnb ts bd id ans)
+  | rmsg seq ts m => exact absurd rfl (hnr seq ts m)
+  | ndeath bd =>
+    rw [step_ndeath_fst] at hl ⊢
+    have h0 : (cancelTimer s).1.reseq = s.reseq := by rw [cancelTimer_fst]
+    split at hl
+    · rw [if_pos (by assumption)]
+      have h1 := issueRebirth_reseq _ _ _ _ _ hl
+      rcases issueRebirth_cases c (setStale (cancelTimer s).1 now).1 .outOfSyncBdSeq now wall
+        with h2 | h2 | h2
+      · rw [h2] at hl
+        rw [h1, setStale_reseq _ _ hl, h0]
+      · rw [h2] at hl; cases hl
+      · rw [h2] at hl
+        rw [h1, setStale_reseq _ _ hl, h0]
+    · rw [if_neg (by assumption)]
+      rw [setStale_reseq _ _ hl, h0]
+  | offline => exact setStale_reseq _ _ hl
+  | rebirthReq r => exact issueRebirth_reseq _ _ _ _ _ hl
+  | timerFire =>
+    simp only [step] at hl ⊢
+    split
+    · rename_i d hd
+      rw [hd] at hl
+      exact issueRebirth_reseq _ _ _ _ _ hl
+    · rfl
+
+theorem appliedSeqs_other (c : Cfg) (s : St) (i : In) (hnr : ∀ seq ts m, i ≠ .rmsg seq ts m) :
+    appliedSeqs c s i = [] := by
+  cases i with
+  | rmsg seq ts m => exact absurd rfl (hnr seq ts m)
+  | _ => rfl
+
+theorem applied_consecutive (c : Cfg) (s : St) (i : In) (now wall : Nat) (hinv : HostInv s)
+    (hwf : i.WF) (hres : c.resequence = true) :
+    (∀ k (hk : k < (appliedSeqs c s i).length),
+        (appliedSeqs c s i)[k] = (s.reseq.next + k) % 256) ∧
+    ((step c s i now wall).1.life = .birthed → (∀ ts bd id ans, i ≠ .nbirth ts bd id ans) →
+        (step c s i now wall).1.reseq.next = (s.reseq.next + (appliedSeqs c s i).length) % 256) := by
+  by_cases hr : ∃ seq ts m, i = .rmsg seq ts m
+  · obtain ⟨seq, ts, m, rfl⟩ := hr
+    obtain ⟨_, h2⟩ := handleRMsg_spec c s seq ts m now hinv.1 hwf
+    obtain ⟨h3, h4⟩ := h2 hres
+    refine ⟨h3, fun hl _ => ?_⟩
+    rw [step_rmsg_eq] at hl ⊢
+    cases hro : (handleRMsg c s seq ts m now).2.2 with
+    | none => exact h4
+    | some r =>
+      simp only [hro] at hl ⊢
+      rw [issueRebirth_reseq _ _ _ _ _ hl, h4]
+  · have hnr : ∀ seq ts m, i ≠ .rmsg seq ts m := fun seq ts m h => hr ⟨seq, ts, m, h⟩
+    rw [appliedSeqs_other c s i hnr]
+    refine ⟨fun k hk => by simp at hk, fun hl hnb => ?_⟩
+    rw [step_other_reseq c s i now wall hnb hnr hl]
+    simp [Nat.mod_eq_of_lt hinv.1.1]
+
+theorem nbirth_restarts (c : Cfg) (s : St) (ts bd id : Nat) (ans : Ans) (now wall : Nat)
+    (hnew : s.birthTs < ts) (hok : ans = .ok) :
+    (step c s (.nbirth ts bd id ans) now wall).1.reseq = Reseq.setNext Reseq.init 1 ∧
+    (step c s (.nbirth ts bd id ans) now wall).1.life = .birthed ∧
+    (step c s (.nbirth ts bd id ans) now wall).1.birthTs = ts := by
+  have h1 : ¬ ts ≤ s.birthTs := by omega
+  simp only [step, handleBirth, h1, hok, if_false]
+  simp
+
+theorem effects_bounded (c : Cfg) (s : St) (seq ts : Nat) (m : RMsg) (now wall : Nat)
+    (hinv : HostInv s) (hseq : seq < 256) :
+    ((step c s (.rmsg seq ts m) now wall).2.filter isMsgEff).length
+      ≤ (appliedSeqs c s (.rmsg seq ts m)).length := by
+  obtain ⟨h1, _⟩ := handleRMsg_spec c s seq ts m now hinv.1 hseq
+  rw [step_rmsg_eq]
+  cases hro : (handleRMsg c s seq ts m now).2.2 with
+  | none => exact h1
+  | some r =>
+    simp only [List.filter_append, List.length_append]
+    have : (issueRebirth c (handleRMsg c s seq ts m now).1 r now wall).2.filter isMsgEff = [] := by
+      rw [List.filter_eq_nil_iff]
+      intro e he
+      simp [issueRebirth_eff _ _ _ _ _ e he]
+    rw [this]
+    simpa using h1
+
+/-! ### `applyAll` -/
+
+theorem apply_sim (s t : St) (m : RMsg) (hdev : s.devices = t.devices) :
+    apply s m = ({ s with devices := (apply t m).1.devices }, (apply t m).2.1, (apply t m).2.2) := by
+  obtain ⟨h1, h2⟩ := apply_congr s t m hdev
+  have h3 := apply_fst s m
+  rw [h1] at h3
+  rw [← h2, ← h3]
+
+theorem applyAll_cons_none (s : St) (m : RMsg) (l : List RMsg) (h : (apply s m).2.2 = none) :
+    applyAll s (m :: l) = ((applyAll (apply s m).1 l).1,
+      (apply s m).2.1 ++ (applyAll (apply s m).1 l).2.1, (applyAll (apply s m).1 l).2.2) := by
+  cases ha : apply s m with
+  | mk s1 rest =>
+  obtain ⟨e1, ro⟩ := rest
+  rw [ha] at h
+  simp only at h
+  subst h
+  simp only [applyAll, ha]
+
+theorem applyAll_cons_some (s : St) (m : RMsg) (l : List RMsg) (r : Reason)
+    (h : (apply s m).2.2 = some r) : (applyAll s (m :: l)).2.2 = some r := by
+  cases ha : apply s m with
+  | mk s1 rest =>
+  obtain ⟨e1, ro⟩ := rest
+  rw [ha] at h
+  simp only at h
+  subst h
+  simp only [applyAll, ha]
+
+theorem applyAll_cons_clean (s : St) (m : RMsg) (l : List RMsg)
+    (h : (applyAll s (m :: l)).2.2 = none) :
+    (apply s m).2.2 = none ∧ (applyAll (apply s m).1 l).2.2 = none := by
+  cases hr : (apply s m).2.2 with
+  | some r => rw [applyAll_cons_some s m l r hr] at h; cases h
+  | none =>
+    rw [applyAll_cons_none s m l hr] at h
+    exact ⟨rfl, h⟩
+
+theorem applyAll_append (s : St) (l1 l2 : List RMsg) (h : (applyAll s l1).2.2 = none) :
+    applyAll s (l1 ++ l2) = ((applyAll (applyAll s l1).1 l2).1,
+      (applyAll s l1).2.1 ++ (applyAll (applyAll s l1).1 l2).2.1,
+      (applyAll (applyAll s l1).1 l2).2.2) := by
+  induction l1 generalizing s with
+  | nil => simp [applyAll]
+  | cons m t ih =>
+    obtain ⟨h1, h2⟩ := applyAll_cons_clean s m t h
+    rw [List.cons_append, applyAll_cons_none s m _ h1, applyAll_cons_none s m t h1, ih _ h2]
+    simp
+
+theorem applyAll_prefix_clean (s : St) (l1 l2 : List RMsg)
+    (h : (applyAll s (l1 ++ l2)).2.2 = none) : (applyAll s l1).2.2 = none := by
+  induction l1 generalizing s with
+  | nil => rfl
+  | cons m t ih =>
+    rw [List.cons_append] at h
+    obtain ⟨h1, h2⟩ := applyAll_cons_clean s m _ h
+    rw [applyAll_cons_none s m t h1]
+    exact ih _ h2
+
+theorem applyAll_congr (s s' : St) (l : List RMsg) (h : s.devices = s'.devices) :
+    (applyAll s l).1.devices = (applyAll s' l).1.devices ∧ (applyAll s l).2 = (applyAll s' l).2 := by
+  induction l generalizing s s' with
+  | nil => exact ⟨h, rfl⟩
+  | cons m t ih =>
+    obtain ⟨h1, h2⟩ := apply_congr s s' m h
+    cases hr : (apply s m).2.2 with
+    | none =>
+      have hr' : (apply s' m).2.2 = none := by rw [← h2]; exact hr
+      obtain ⟨h3, h4⟩ := ih _ _ h1
+      rw [applyAll_cons_none s m t hr, applyAll_cons_none s' m t hr']
+      simp only [h3, h4, h2, and_self]
+    | some r =>
+      have hr' : (apply s' m).2.2 = some r := by rw [← h2]; exact hr
+      have e1 : applyAll s (m :: t) = apply s m := by
+        cases ha : apply s m with
+        | mk s1 rest =>
+        obtain ⟨e1, ro⟩ := rest
+        rw [ha] at hr; simp only at hr; subst hr
+        simp only [applyAll, ha]
+      have e2 : applyAll s' (m :: t) = apply s' m := by
+        cases ha : apply s' m with
+        | mk s1 rest =>
+        obtain ⟨e1, ro⟩ := rest
+        rw [ha] at hr'; simp only at hr'; subst hr'
+        simp only [applyAll, ha]
+      rw [e1, e2]
+      exact ⟨h1, h2⟩
+
+theorem applyAll_eff (s : St) (l : List RMsg) :
+    ∀ e ∈ (applyAll s l).2.1, e.observable = true ∧ e ≠ Eff.ncmd := by
+  induction l generalizing s with
+  | nil => simp [applyAll]
+  | cons m t ih =>
+    cases hr : (apply s m).2.2 with
+    | none =>
+      rw [applyAll_cons_none s m t hr]
+      intro e he
+      rcases List.mem_append.mp he with he | he
+      · exact apply_eff s m e he
+      · exact ih _ e he
+    | some r =>
+      have e1 : applyAll s (m :: t) = apply s m := by
+        cases ha : apply s m with
+        | mk s1 rest =>
+        obtain ⟨e1, ro⟩ := rest
+        rw [ha] at hr; simp only at hr; subst hr
+        simp only [applyAll, ha]
+      rw [e1]
+      exact apply_eff s m
+
+theorem filter_observable_eq (l : List Eff) (h : ∀ e ∈ l, e.observable = true ∧ e ≠ Eff.ncmd) :
+    l.filter Eff.observable = l :=
+  List.filter_eq_self.mpr (fun e he => (h e he).1)
+
+theorem filter_timer_nil (te : List Eff) (h : ∀ e ∈ te, e = Eff.timerCancel ∨ e = Eff.timerStart) :
+    te.filter Eff.observable = [] ∧ Eff.ncmd ∉ te := by
+  refine ⟨?_, ?_⟩
+  · rw [List.filter_eq_nil_iff]
+    intro e he
+    rcases h e he with h | h <;> subst h <;> simp [Eff.observable]
+  · intro hmem
+    rcases h _ hmem with h | h <;> cases h
+
+theorem range_split (k k1 : Nat) (h : k ≤ k1) :
+    List.range k1 = List.range k ++ List.range' k (k1 - k) := by
+  have h1 : k1 = k + (k1 - k) := by omega
+  conv => lhs; rw [h1, List.range_eq_range', ← List.range'_append_1]
+  simp [List.range_eq_range']
+
+theorem range'_split (k k1 : Nat) (h : k < k1) :
+    List.range' k (k1 - k) = k :: List.range' (k + 1) (k1 - (k + 1)) := by
+  have : k1 - k = (k1 - (k + 1)) + 1 := by omega
+  rw [this, List.range'_succ]
+
+/-! ### promptness: the host's drain loop against the resequencer's `PInv` -/
+
+/-- Host drain loop, started with `k` messages already applied, arrived set `A` whose first
+missing index is `k1`, reference state `t` (same devices): it applies exactly
+`msgs k … msgs (k1-1)` in order (given that this raises no reason) and stops. -/
+theorem hostDrain_spec (c : Cfg) (now : Nat) (msgs : Nat → RMsg) (A : List Nat) (k1 : Nat)
+    (hk1n : k1 ∉ A) :
+    ∀ (fuel k : Nat) (rel : Bool) (s t : St) (acc : List Eff),
+      Reseq.PInv 1 msgs A k s.reseq → s.reseq.buf.length < fuel → k ≤ k1 →
+      (∀ j, k ≤ j → j < k1 → j ∈ A) → s.devices = t.devices →
+      (applyAll t ((List.range' k (k1 - k)).map msgs)).2.2 = none →
+      (drainBuf c now fuel rel s acc).2.2 = none ∧
+      (drainBuf c now fuel rel s acc).1.devices
+        = (applyAll t ((List.range' k (k1 - k)).map msgs)).1.devices ∧
+      Reseq.PInv 1 msgs A k1 (drainBuf c now fuel rel s acc).1.reseq ∧
+      (drainBuf c now fuel rel s acc).1.life = s.life ∧
+      (drainBuf c now fuel rel s acc).1.birthTs = s.birthTs ∧
+      (drainBuf c now fuel rel s acc).1.staleTs = s.staleTs ∧
+      (drainBuf c now fuel rel s acc).2.1.filter Eff.observable
+        = acc.filter Eff.observable ++ (applyAll t ((List.range' k (k1 - k)).map msgs)).2.1 ∧
+      (Eff.ncmd ∉ acc → Eff.ncmd ∉ (drainBuf c now fuel rel s acc).2.1) := by
+  intro fuel
+  induction fuel with
+  | zero => intro k rel s t acc _ hf; omega
+  | succ fuel ih =>
+    intro k rel s t acc hP hf hkk1 hmem hdev hclean
+    by_cases hlt : k < k1
+    · have hkA : k ∈ A := hmem k (Nat.le_refl _) hlt
+      obtain ⟨r', hd, hP', hlen⟩ := Reseq.drain_step_mem 1 msgs A k s.reseq hP hkA
+      rw [range'_split k k1 hlt, List.map_cons] at hclean ⊢
+      obtain ⟨hc1, hc2⟩ := applyAll_cons_clean t (msgs k) _ hclean
+      rw [applyAll_cons_none t (msgs k) _ hc1]
+      have ha := apply_sim { s with reseq := r' } t (msgs k) hdev
+      rw [hc1] at ha
+      rw [drainBuf_msg_none c now fuel rel s _ acc _ r' (Reseq.runMsg 1 msgs k) hd ha]
+      have := ih (k + 1) true
+        { s with reseq := r', devices := (apply t (msgs k)).1.devices } (apply t (msgs k)).1
+        (acc ++ (apply t (msgs k)).2.1) hP' (by simp only; omega) (by omega)
+        (fun j h1 h2 => hmem j (by omega) h2) rfl hc2
+      obtain ⟨h1, h2, h3, h4, h5, h6, h7, h8⟩ := this
+      refine ⟨h1, h2, h3, h4, h5, h6, ?_, ?_⟩
+      · rw [h7, List.filter_append, filter_observable_eq _ (apply_eff t (msgs k)),
+          List.append_assoc]
+      · intro hn
+        apply h8
+        intro hmem'
+        rcases List.mem_append.mp hmem' with h | h
+        · exact hn h
+        · exact (apply_eff t (msgs k) _ h).2 rfl
+    · have hkeq : k = k1 := by omega
+      subst hkeq
+      obtain ⟨dr, hd, hdr⟩ := Reseq.drain_step_nmem 1 msgs A k s.reseq hP hk1n
+      obtain ⟨tm, te, hdb, hte⟩ := drainBuf_stop c now fuel rel s acc s.reseq dr hd hdr
+      obtain ⟨hte1, hte2⟩ := filter_timer_nil te hte
+      rw [hdb]
+      simp only [Nat.sub_self, List.range'_zero, List.map_nil, applyAll, List.append_nil,
+        List.filter_append, hte1]
+      refine ⟨trivial, hdev, hP, trivial, trivial, trivial, trivial, ?_⟩
+      intro hn hmem'
+      rcases List.mem_append.mp hmem' with h | h
+      · exact hn h
+      · exact hte2 h
+
+/-- One delivery of message `i` of the session to a birthed node whose resequencer satisfies
+`PInv … A k`; `k1` is the first index missing from `i :: A`, `t` a reference state with the same
+devices. The arrival applies exactly `msgs k … msgs (k1-1)`, raises nothing. -/
+theorem hostHandle_spec (c : Cfg) (msgs : Nat → RMsg) (A : List Nat) (k i k1 : Nat) (s t : St)
+    (ts now : Nat) (hres : c.resequence = true) (hl : s.life = .birthed) (hfresh : Fresh s ts)
+    (hP : Reseq.PInv 1 msgs A k s.reseq) (hk : k ∉ A) (hi : i ∉ A) (hiw : i < k + 256)
+    (hkk1 : k ≤ k1) (hmem : ∀ j, k ≤ j → j < k1 → j ∈ i :: A) (hk1n : k1 ∉ i :: A)
+    (hdev : s.devices = t.devices)
+    (hclean : (applyAll t ((List.range' k (k1 - k)).map msgs)).2.2 = none) :
+    (handleRMsg c s ((1 + i) % 256) ts (msgs i) now).2.2 = none ∧
+    (handleRMsg c s ((1 + i) % 256) ts (msgs i) now).1.devices
+      = (applyAll t ((List.range' k (k1 - k)).map msgs)).1.devices ∧
+    Reseq.PInv 1 msgs (i :: A) k1 (handleRMsg c s ((1 + i) % 256) ts (msgs i) now).1.reseq ∧
+    (handleRMsg c s ((1 + i) % 256) ts (msgs i) now).1.life = .birthed ∧
+    (handleRMsg c s ((1 + i) % 256) ts (msgs i) now).1.birthTs = s.birthTs ∧
+    (handleRMsg c s ((1 + i) % 256) ts (msgs i) now).1.staleTs = s.staleTs ∧
+    (handleRMsg c s ((1 + i) % 256) ts (msgs i) now).2.1.filter Eff.observable
+      = (applyAll t ((List.range' k (k1 - k)).map msgs)).2.1 ∧
+    Eff.ncmd ∉ (handleRMsg c s ((1 + i) % 256) ts (msgs i) now).2.1 := by
+  have h1 : ¬ (ts < s.birthTs ∨ ts < s.staleTs) := by
+    obtain ⟨ha, hb⟩ := hfresh
+    omega
+  by_cases hik : i = k
+  · subst hik
+    obtain ⟨r1, hp, hP1⟩ := Reseq.process_next 1 msgs A i s.reseq hP hk
+    have hlt : i < k1 := by
+      rcases Nat.lt_or_ge i k1 with h | h
+      · exact h
+      · have : k1 = i := by omega
+        exact absurd (this ▸ List.mem_cons_self ..) hk1n
+    rw [range'_split i k1 hlt, List.map_cons] at hclean ⊢
+    obtain ⟨hc1, hc2⟩ := applyAll_cons_clean t (msgs i) _ hclean
+    rw [applyAll_cons_none t (msgs i) _ hc1]
+    have ha := apply_sim { s with reseq := r1 } t (msgs i) hdev
+    rw [hc1] at ha
+    rw [handleRMsg_next_none c s ((1 + i) % 256) ts (msgs i) now h1 hl hres r1
+      (Reseq.runMsg 1 msgs i) hp _ _ ha]
+    have := hostDrain_spec c now msgs (i :: A) k1 hk1n (r1.buf.length + 1) (i + 1) false
+      { s with reseq := r1, devices := (apply t (msgs i)).1.devices } (apply t (msgs i)).1
+      (apply t (msgs i)).2.1 hP1 (by simp only; omega) (by omega)
+      (fun j h1 h2 => hmem j (by omega) h2) rfl hc2
+    obtain ⟨h1', h2, h3, h4, h5, h6, h7, h8⟩ := this
+    refine ⟨h1', h2, h3, h4.trans hl, h5, h6, ?_, ?_⟩
+    · rw [h7, filter_observable_eq _ (apply_eff t (msgs i))]
+    · exact h8 (fun h => (apply_eff t (msgs i) _ h).2 rfl)
+  · obtain ⟨r1, hp, hP1⟩ := Reseq.process_ins 1 msgs A k i s.reseq hP hi hiw hik
+    have hkeq : k1 = k := by
+      rcases Nat.lt_or_ge k k1 with h | h
+      · have := hmem k (Nat.le_refl _) h
+        rcases List.mem_cons.mp this with h' | h'
+        · exact absurd h'.symm hik
+        · exact absurd h' hk
+      · omega
+    subst hkeq
+    obtain ⟨tm, te, he, hte⟩ :=
+      handleRMsg_inserted c s ((1 + i) % 256) ts (msgs i) now h1 hl hres r1 hp
+    obtain ⟨hte1, hte2⟩ := filter_timer_nil te (fun e h => Or.inr (hte e h))
+    rw [he]
+    simp only [Nat.sub_self, List.range'_zero, List.map_nil, applyAll]
+    exact ⟨trivial, hdev, hP1, hl, trivial, trivial, hte1, hte2⟩
+
+theorem hostStep_spec (c : Cfg) (msgs : Nat → RMsg) (A : List Nat) (k i k1 : Nat) (s t : St)
+    (ts now wall : Nat) (hres : c.resequence = true) (hl : s.life = .birthed)
+    (hfresh : Fresh s ts)
+    (hP : Reseq.PInv 1 msgs A k s.reseq) (hk : k ∉ A) (hi : i ∉ A) (hiw : i < k + 256)
+    (hkk1 : k ≤ k1) (hmem : ∀ j, k ≤ j → j < k1 → j ∈ i :: A) (hk1n : k1 ∉ i :: A)
+    (hdev : s.devices = t.devices)
+    (hclean : (applyAll t ((List.range' k (k1 - k)).map msgs)).2.2 = none) :
+    (step c s (.rmsg ((1 + i) % 256) ts (msgs i)) now wall).1.devices
+      = (applyAll t ((List.range' k (k1 - k)).map msgs)).1.devices ∧
+    Reseq.PInv 1 msgs (i :: A) k1 (step c s (.rmsg ((1 + i) % 256) ts (msgs i)) now wall).1.reseq ∧
+    (step c s (.rmsg ((1 + i) % 256) ts (msgs i)) now wall).1.life = .birthed ∧
+    (step c s (.rmsg ((1 + i) % 256) ts (msgs i)) now wall).1.birthTs = s.birthTs ∧
+    (step c s (.rmsg ((1 + i) % 256) ts (msgs i)) now wall).1.staleTs = s.staleTs ∧
+    (step c s (.rmsg ((1 + i) % 256) ts (msgs i)) now wall).2.filter Eff.observable
+      = (applyAll t ((List.range' k (k1 - k)).map msgs)).2.1 ∧
+    Eff.ncmd ∉ (step c s (.rmsg ((1 + i) % 256) ts (msgs i)) now wall).2 := by
+  obtain ⟨h0, h⟩ := hostHandle_spec c msgs A k i k1 s t ts now hres hl hfresh hP hk hi hiw hkk1
+    hmem hk1n hdev hclean
+  rw [step_rmsg_eq]
+  simp only [h0]
+  exact h
+
+/-! ### the whole delivery -/
+
+theorem run_cons (c : Cfg) (s : St) (e : Ev) (es : List Ev) :
+    run c s (e :: es) = ((run c (step c s e.inp e.now e.wall).1 es).1,
+      (step c s e.inp e.now e.wall).2 ++ (run c (step c s e.inp e.now e.wall).1 es).2) := rfl
+
+theorem run_append (c : Cfg) (s : St) (l1 l2 : List Ev) :
+    run c s (l1 ++ l2) = ((run c (run c s l1).1 l2).1,
+      (run c s l1).2 ++ (run c (run c s l1).1 l2).2) := by
+  induction l1 generalizing s with
+  | nil => simp [run]
+  | cons e es ih =>
+    rw [List.cons_append, run_cons, ih, run_cons]
+    simp
+
+theorem run_single (c : Cfg) (s : St) (e : Ev) :
+    run c s [e] = step c s e.inp e.now e.wall := by
+  rw [run_cons]
+  simp [run]
+
+theorem mexOf_mono (A B : List Nat) (h : ∀ i ∈ A, i ∈ B) : Reseq.mexOf A ≤ Reseq.mexOf B := by
+  rcases Nat.lt_or_ge (Reseq.mexOf B) (Reseq.mexOf A) with hlt | hge
+  · exact absurd (h _ ((Reseq.mexOf_spec A).1 _ hlt)) (Reseq.mexOf_spec B).2
+  · exact hge
+
+theorem prompt_take (c : Cfg) (s0 : St) (ts : Nat → Nat) (msgs : Nat → RMsg)
+    (clk : Nat → Nat × Nat) (arr : List Nat)
+    (hres : c.resequence = true) (hb : s0.life = .birthed)
+    (hstart : s0.reseq = Reseq.setNext Reseq.init 1)
+    (hnodup : arr.Nodup) (hwin : Reseq.WindowOk arr) (hfresh : ∀ i ∈ arr, Fresh s0 (ts i))
+    (hclean : (applyAll s0 ((List.range (Reseq.mexOf arr)).map msgs)).2.2 = none) :
+    ∀ n, n ≤ arr.length →
+      (run c s0 ((arr.take n).map (sessEv ts msgs clk))).1.life = .birthed ∧
+      (run c s0 ((arr.take n).map (sessEv ts msgs clk))).1.birthTs = s0.birthTs ∧
+      (run c s0 ((arr.take n).map (sessEv ts msgs clk))).1.staleTs = s0.staleTs ∧
+      (run c s0 ((arr.take n).map (sessEv ts msgs clk))).1.devices
+        = (applyAll s0 ((List.range (Reseq.mexOf (arr.take n))).map msgs)).1.devices ∧
+      Reseq.PInv 1 msgs (arr.take n) (Reseq.mexOf (arr.take n))
+        (run c s0 ((arr.take n).map (sessEv ts msgs clk))).1.reseq ∧
+      (run c s0 ((arr.take n).map (sessEv ts msgs clk))).2.filter Eff.observable
+        = (applyAll s0 ((List.range (Reseq.mexOf (arr.take n))).map msgs)).2.1 ∧
+      Eff.ncmd ∉ (run c s0 ((arr.take n).map (sessEv ts msgs clk))).2 := by
+  intro n
+  induction n with
+  | zero =>
+    intro _
+    have h0 : Reseq.mexOf ([] : List Nat) = 0 := by decide
+    simp only [List.take_zero, List.map_nil, run, h0, List.range_zero, applyAll, List.filter_nil,
+      List.not_mem_nil, not_false_eq_true, and_true, true_and]
+    refine ⟨hb, ?_⟩
+    rw [hstart]
+    exact ⟨(by intro i hi; omega), (by intro i hi; cases hi), rfl,
+      Or.inl ⟨rfl, rfl, (by intro i hi; cases hi)⟩⟩
+  | succ n ih =>
+    intro hn
+    have hn' : n < arr.length := by omega
+    obtain ⟨il, ib, ist, idev, iP, ieff, incmd⟩ := ih (by omega)
+    have htake : arr.take (n + 1) = arr.take n ++ [arr[n]] :=
+      List.take_succ_eq_append_getElem hn'
+    have hnd : (arr.take n ++ [arr[n]]).Nodup := by
+      rw [← htake]; exact hnodup.sublist (List.take_sublist _ _)
+    have hi : arr[n] ∉ arr.take n := by
+      intro hmem
+      have := (List.nodup_append.mp hnd).2.2 _ hmem _ (List.mem_singleton.mpr rfl)
+      exact this rfl
+    have hAB : ∀ i, i ∈ arr[n] :: arr.take n ↔ i ∈ arr.take (n + 1) := by
+      intro i; rw [htake, List.mem_cons, List.mem_append, List.mem_singleton, or_comm]
+    have hk := (Reseq.mexOf_spec (arr.take n)).2
+    have hkk1 : Reseq.mexOf (arr.take n) ≤ Reseq.mexOf (arr.take (n + 1)) :=
+      mexOf_mono _ _ (fun i hi => (hAB i).mp (List.mem_cons_of_mem _ hi))
+    have hk1arr : Reseq.mexOf (arr.take (n + 1)) ≤ Reseq.mexOf arr :=
+      mexOf_mono _ _ (fun i hi => List.mem_of_mem_take hi)
+    obtain ⟨hs1, hs2⟩ := Reseq.mexOf_spec (arr.take (n + 1))
+    -- cleanliness of the relevant prefixes
+    have hc1 : (applyAll s0 ((List.range (Reseq.mexOf (arr.take (n + 1)))).map msgs)).2.2 = none := by
+      rw [range_split _ _ hk1arr, List.map_append] at hclean
+      exact applyAll_prefix_clean _ _ _ hclean
+    have hc0 : (applyAll s0 ((List.range (Reseq.mexOf (arr.take n))).map msgs)).2.2 = none := by
+      rw [range_split _ _ hkk1, List.map_append] at hc1
+      exact applyAll_prefix_clean _ _ _ hc1
+    have happ := applyAll_append s0 ((List.range (Reseq.mexOf (arr.take n))).map msgs)
+      ((List.range' (Reseq.mexOf (arr.take n))
+        (Reseq.mexOf (arr.take (n + 1)) - Reseq.mexOf (arr.take n))).map msgs) hc0
+    rw [← List.map_append, ← range_split _ _ hkk1] at happ
+    have hc2 : (applyAll (applyAll s0 ((List.range (Reseq.mexOf (arr.take n))).map msgs)).1
+        ((List.range' (Reseq.mexOf (arr.take n))
+          (Reseq.mexOf (arr.take (n + 1)) - Reseq.mexOf (arr.take n))).map msgs)).2.2 = none := by
+      rw [happ] at hc1; exact hc1
+    have hstep := hostStep_spec c msgs (arr.take n) (Reseq.mexOf (arr.take n)) arr[n]
+      (Reseq.mexOf (arr.take (n + 1)))
+      (run c s0 ((arr.take n).map (sessEv ts msgs clk))).1
+      (applyAll s0 ((List.range (Reseq.mexOf (arr.take n))).map msgs)).1
+      (ts arr[n]) (clk arr[n]).1 (clk arr[n]).2 hres il
+      (by have := hfresh arr[n] (List.getElem_mem hn'); unfold Fresh at this ⊢; rw [ib, ist]; exact this)
+      iP hk hi (hwin n hn') hkk1
+      (fun j _ h2 => (hAB j).mpr (hs1 j h2)) (fun h => hs2 ((hAB _).mp h)) idev hc2
+    obtain ⟨h1, h2, h3, h4, h5, h6, h7⟩ := hstep
+    rw [htake, List.map_append, run_append, List.map_singleton, run_single, ← htake]
+    simp only [sessEv]
+    rw [happ]
+    refine ⟨h3, h4.trans ib, h5.trans ist, h1, Reseq.PInv_congr _ _ _ _ _ _ hAB h2, ?_, ?_⟩
+    · rw [List.filter_append, ieff, h6]
+    · intro hmem
+      rcases List.mem_append.mp hmem with h | h
+      · exact incmd h
+      · exact h7 h
+
+theorem prompt_in_order (c : Cfg) (s0 : St) (ts : Nat → Nat) (msgs : Nat → RMsg)
+    (clk : Nat → Nat × Nat) (arr : List Nat)
+    (hres : c.resequence = true) (hb : s0.life = .birthed)
+    (hstart : s0.reseq = Reseq.setNext Reseq.init 1)
+    (hnodup : arr.Nodup) (hwin : Reseq.WindowOk arr) (hfresh : ∀ i ∈ arr, Fresh s0 (ts i))
+    (hclean : (applyAll s0 ((List.range (Reseq.mexOf arr)).map msgs)).2.2 = none) :
+    ((run c s0 (arr.map (sessEv ts msgs clk))).2.filter Eff.observable
+        = (applyAll s0 ((List.range (Reseq.mexOf arr)).map msgs)).2.1) ∧
+    Eff.ncmd ∉ (run c s0 (arr.map (sessEv ts msgs clk))).2 ∧
+    (run c s0 (arr.map (sessEv ts msgs clk))).1.life = .birthed ∧
+    (run c s0 (arr.map (sessEv ts msgs clk))).1.reseq.next = (1 + Reseq.mexOf arr) % 256 := by
+  have := prompt_take c s0 ts msgs clk arr hres hb hstart hnodup hwin hfresh hclean arr.length
+    (Nat.le_refl _)
+  rw [List.take_length] at this
+  obtain ⟨h1, _, _, _, h5, h6, h7⟩ := this
+  exact ⟨h6, h7, h1, h5.2.2.1⟩
+
 end Srad.Host
